@@ -32,6 +32,7 @@ properties! {
     "C02" => c02,
     "C03" => c03,
     "C04" => c04,
+    "C05" => c05,
     "C06" => c06,
     "C07" => c07,
     "C08" => c08,
